@@ -19,6 +19,8 @@ def clean():
 
 if sh(['git', '-C', '/repo', 'status', '--porcelain', '--untracked-files=no']).stdout.strip():
     sys.exit('/repo has uncommitted changes; refusing')
+import glob as _g
+EV = {f: open(f).read() for f in _g.glob('/verif/evidence/C10*.json') if 'thorough' not in f}  # evidence of the unchanged tree, restored at the end
 bad = 0
 for kind, want in (('mutants', 1), ('neutral', 0)):
     for path in sorted(glob.glob(os.path.join(HERE, kind, '*.diff'))):
@@ -64,4 +66,6 @@ for kind, want in (('mutants', 1), ('neutral', 0)):
         json.dump(results, open(res_path, 'w'), indent=1, ensure_ascii=False)
 for f in glob.glob(os.path.join(ROOT, 'replays', '*.json')):
     os.remove(f)
+for f, t in EV.items():
+    open(f, 'w').write(t)
 sys.exit(1 if bad else 0)
